@@ -50,8 +50,8 @@ impl<T: RealNumber> KMeans<T> {
                 forall|i: int, j: int| 0 <= i < n && 0 <= j < kk ==> le(#[trigger] kd(x, cs, i, j), T::max_value_spec()),
                 row@.len() == m,
                 result.mwf(), result.nrows_spec() == 1, result.ncols_spec() == n,
-                forall|a: int| 0 <= a < i ==> labelled_first_nearest(x, cs, kk, a, #[trigger] result.at(0, a)),
-//@before let mut min_dist = T::max_value();
+                forall|a: int| 0 <= a < i ==> labelled_first_nearest(x, cs, kk, a, #[trigger] result.at(0, a)), //# inv-rows-done-are-labelled-with-their-first-nearest-centroid
+//@before let mut min_dist
             let ghost dom = kd_dom(x, cs, i as int, kk);
             proof { lemma_kd_dom(x, cs, i as int, kk, 0); }
 //@loop 2
@@ -65,11 +65,11 @@ impl<T: RealNumber> KMeans<T> {
                     row@.len() == m,
                     // the running minimum is max_value (nothing chosen yet, best_cluster still 0) or the distance of best_cluster
                     dom.contains(min_dist),
-                    (min_dist == T::max_value_spec() && best_cluster == 0) || (best_cluster < j && min_dist == kd(x, cs, i as int, best_cluster as int)),
+                    (min_dist == T::max_value_spec() && best_cluster == 0) || (best_cluster < j && min_dist == kd(x, cs, i as int, best_cluster as int)), //# inv-running-minimum-is-max-value-or-the-distance-of-the-best
                     // no centroid seen so far is strictly closer than the running minimum,
-                    forall|b: int| 0 <= b < j ==> !lt(#[trigger] kd(x, cs, i as int, b), min_dist),
+                    forall|b: int| 0 <= b < j ==> !lt(#[trigger] kd(x, cs, i as int, b), min_dist), //# inv-no-seen-centroid-is-strictly-closer-than-the-running-minimum
                     // and the centroids before best_cluster are strictly farther
-                    forall|b: int| 0 <= b < best_cluster ==> lt(min_dist, #[trigger] kd(x, cs, i as int, b)),
+                    forall|b: int| 0 <= b < best_cluster ==> lt(min_dist, #[trigger] kd(x, cs, i as int, b)), //# inv-centroids-before-the-best-are-strictly-farther
 //@after let dist = Euclidian::squared_distance(
                 proof {
                     assert(row@ =~= row_view(x, i as int));
@@ -111,20 +111,21 @@ impl<T: RealNumber> KMeans<T> {
                         assert(le(db, e));
                     }
                 }
-                assert(is_first_nearest(x, cs, kk, i as int, bc));
+                assert(is_first_nearest(x, cs, kk, i as int, bc)); //# scan-result-is-the-first-nearest-centroid
             }
             let ghost before = result;
 //@after result.set(
             proof {
-                assert(labelled_first_nearest(x, cs, kk, i as int, result.at(0, i as int)));
+                assert(labelled_first_nearest(x, cs, kk, i as int, result.at(0, i as int))); //# stored-label-is-the-conversion-of-the-first-nearest-centroid
                 assert forall|a: int| 0 <= a < i implies labelled_first_nearest(x, cs, kk, a, #[trigger] result.at(0, a)) by {
                     assert(result.at(0, a) == before.at(0, a));
                 }
             }
-//@before Ok(result.to_row_vector())
+//@before Ok(result.to_row_vector
         proof {
-            assert forall|a: int| 0 <= a < n implies labelled_first_nearest(x, cs, kk, a, #[trigger] result.at(0, a))
-                && labelled_nearest(x, cs, kk, a, result.at(0, a)) by {
+            // "first nearest" implies "nearest" (the property-level clause)
+            assert forall|a: int| 0 <= a < n implies labelled_nearest(x, cs, kk, a, #[trigger] result.at(0, a)) by {
+                assert(labelled_first_nearest(x, cs, kk, a, result.at(0, a)));
                 let b = choose|b: int| #[trigger] is_first_nearest(x, cs, kk, a, b) && result.at(0, a) == T::from_spec::<usize>(b as usize);
                 assert(is_nearest(x, cs, kk, a, b));
             }
